@@ -4,7 +4,8 @@
 id=$1; d=/verif/seeded/$id
 export GOFLAGS=-mod=mod GOPROXY=off GOSUMDB=off GOTOOLCHAIN=local
 wt=/tmp/wt/verify-$$
-git -C /repo worktree add -q --detach $wt HEAD || exit 2
+base=$(python3 -c "import json;print(json.load(open('$d/meta.json')).get('base_commit','') or 'HEAD')" 2>/dev/null); [ -z "$base" ] && base=HEAD
+git -C /repo worktree add -q --detach $wt $base || exit 2
 trap 'git -C /repo worktree remove --force '$wt' >/dev/null 2>&1' EXIT
 cd $wt
 git apply $d/patch.diff || { echo "$id: PATCH DOES NOT APPLY"; exit 1; }
